@@ -136,7 +136,7 @@ var globalAssumptions = []string{
 	"A1 tooling: go/types and go/ssa (x/tools v0.29.0) represent the program faithfully; govc's translation of the SSA subset and the SMT solvers (z3 5.1.0, z3 4.8.12, cvc5 1.0.3) are sound",
 	"A2 sequential semantics: each function is verified as one goroutine running from entry to return without interference",
 	"A3 sync/atomic operations are plain loads/stores; mutexes are ghost lock counts (no blocking semantics)",
-	"A4 machine integers are mathematical integers with range typing on values that enter a function; conversions wrap exactly; +,-,* are not checked for overflow except in functions marked `overflow`",
+	"A4 machine integers are mathematical integers with range typing on values that enter a function; conversions wrap exactly; +,-,* carry a no-overflow obligation only in the functions marked `overflow` in the contract file (the record and location codecs, the item/node/root writers, the root scan, the block-visit counters and tables), elsewhere they are treated as mathematical; assumed for those obligations: a slice lies within a 2^48-byte address space (offset + capacity <= 2^48) and the store file is smaller than 2^60 bytes (`relies file-size-fits`)",
 	"A13 allocator freshness: objects returned by new/make/&T{} are distinct from every object allocated before (free-list reuse by mkNode/mkNodeLoc/mkRootNodeLoc is covered only by their contracts)",
 	"exported package variables MagicBeg, MagicEnd and the unexported constants set by init are not assigned by clients (mechanically checked inside the package only)",
 }
